@@ -88,7 +88,7 @@ build_tests() {
 # per property: checks per shard (quick thorough), extra build needs
 conf() {
   case "$1" in
-    C01) Q=60   T=900 ;;
+    C01) Q=40   T=600 ;;
     C02) Q=50   T=700 ;;
     C03) Q=150  T=2000 ;;
     C04) Q=60   T=800 ;;
